@@ -55,7 +55,7 @@ CHECKS['C06'] = dict(engine='hypothesis/grdrv + gdlmodel', technique='model-base
 CHECKS['C13'] = dict(engine='enum_cmap + hypothesis/grdrv', technique='exhaustive per-font enumeration of all code points, differential (direct vs cached) and against an independent OpenType reference; fonts generated by property-based testing',
     text='For every shipped font and ~2400 generated well-formed cmaps per quick run, all 0x110000 code points are looked up through both engine paths and a 40-line reference; '
          'exhaustive per font (two fonts with ~1900 format-12 groups are strided above the BMP in the quick tier), exploration over fonts.',
-    note='Trusted: the reference lookup (harness/cmap_sweep.h). Generated subtables are well-formed; malformed cmaps are C01 territory.', ref='5/C13')
+    note='Trusted: the reference cmap lookup and the independent parser of the Silf pseudo-glyph map (harness/cmap_sweep.h; neither calls the library). Generated subtables are well-formed (incl. UCS-4-only cmaps and pseudo maps of 1-11 entries); malformed cmaps are C01 territory.', ref='5/C13')
 
 CHECKS['C14'] = dict(engine='hypothesis/grdrv + fz_lz4 (libFuzzer)', technique='round-trip property-based testing with a generator of valid LZ4 encoders, differential testing against a reference decoder, coverage-guided fuzzing, compressed-vs-plain font differential',
     text='Random valid encodings (overlapping matches, length-extension boundaries, end-of-block rules) of real tables must decode exactly; arbitrary and mutated blocks must be '
@@ -70,18 +70,18 @@ CHECKS['C07'] = dict(engine='hypothesis/grdrv x2 builds', technique='model-based
 CHECKS['C18'] = dict(engine='hypothesis/grdrv (history command)', technique='model-based stateful property-based testing: generated Feat/Sill/name tables and set/get/clone/for_lang/label histories against a dictionary model',
     text='Generated feature tables (bit widths straddling word boundaries, hidden features, v1/v2), language overrides and name tables; operation histories over several live '
          'feature-value objects judged by a dictionary model; labels compared with the name-table strings across encodings. Exploration level.',
-    note='Trusted: the model in py/props/c18.py; fontsynth table writers. Feature id 1 and > 256 features are outside the generator.', ref='5/C18')
+    note='Trusted: the model in py/props/c18.py; fontsynth table writers. Feature-value objects come from for_lang (fixed tags and the font own languages, zero/space padded), clone and gr_featureval_clone(NULL). Feature id 1 and > 256 features are outside the generator.', ref='5/C18')
 
 CHECKS['C08'] = dict(engine='hypothesis/grdrv (history command)', technique='stateful property-based testing: generated API call histories on one face, differential against a cold face',
     text='Histories of segment creations/destructions, fonts, feature-value objects, label and support queries, justifications and reports on one face (lazy and preloaded); every '
          'probe segment must equal the segment a cold face produces and the face report must never change. Exploration level.',
-    note='Trusted: segment dump (public API, exact floats). Probes use default feature values; fonts are shipped, C06-regime and wild synthesised; gr_font objects are unhinted and hinted (pure fractional advance callback).', ref='5/C08')
+    note='Trusted: segment dump (public API, exact floats). Probes use default feature values; fonts are shipped, C06-regime and wild synthesised; gr_font objects are unhinted and hinted (pure fractional advance callback); 1 synthesised font in 4 carries 1-3 corrupted bytes inside Silf (accepted fonts whose programs fail at run time); a candidate that passes in a fresh process is replayed after the recorded request prelude of its process (process-history dependence).', ref='5/C08')
 CHECKS['C10'] = dict(engine='hypothesis/grdrv', technique='differential property-based testing across all 16 (options x table source) configurations plus the deprecated seg-cache constructors',
     text='Each generated (font, text, direction, encoding, features) case is shaped under all 8 option values x {callbacks, file}; dumps and face reports must equal the reference configuration exactly. Exploration level.',
     note='Trusted: dump/report comparison. Fonts are well-formed (shipped, fontsynth GDL-lite, or fontsynth with a generated format 4 + format 12 cmap and boundary-code-point texts).', ref='5/C10')
 CHECKS['C15'] = dict(engine='hypothesis/grdrv', technique='metamorphic property-based testing: font = P ppm vs font = NULL scaled by P/upem, stated single-precision tolerance',
     text='Generated cases x ppm in (0,4096]: glyphs/attachments/associations identical to the NULL-font segment; origins and advances within 1e-5 x extent x scale of the linear scaling. Exploration level.',
-    note='Trusted: tolerance bound (DESIGN 5/C15); unhinted fonts only.', ref='5/C15')
+    note='Trusted: tolerance bound (DESIGN 5/C15: 1e-5 x largest compared magnitude x scale); unhinted fonts only; second generator compares a justified second line (gr_slot_linebreak_before + gr_seg_justify) with font NULL and font P.', ref='5/C15')
 CHECKS['C19'] = dict(engine='hypothesis/grdrv (history command)', technique='property-based testing of generated linebreak/justify call sequences with a chain-integrity oracle and a confirmed watchdog',
     text='Segments are cut into lines at generated cluster boundaries and justified with generated widths/flags/sub-ranges; after every call all line chains must hold the same '
          'slots in the same order with prev the inverse, values finite, glyphs unchanged without a justification pass, sanitizers silent. Known finding KF2 excluded by construction. Exploration level.',
